@@ -57,3 +57,11 @@ Theorem C20_scale_combination_kernel : forall mu1 mu2 s1 s2, 0 < s1 -> 0 < s2 ->
   (Kernels.combine_mu mu1 mu2 s1 s2, combine_s s1 s2) = Joint.combine_step Rplus Rmult Rdiv sqrt (mu1, s1) (mu2, s2).
 Proof. exact combine_equiv. Qed.
 Print Assumptions C20_scale_combination_kernel.
+
+(* scale factor of the relative-amplitude likelihood: the compiled per-station kernel equals the per-station formulas of the
+   pure-Python scale_estimator at the magnitudes the compiled code takes (no side condition: both sides share every denominator) *)
+Theorem C20_scale_estimate_kernel : forall x y mux muy psx psy,
+  estimate_scale_mu_s x y mux muy psx psy =
+  (py_scale_mu (Rabs (x / y)) (Rabs mux) (Rabs muy) psx psy, py_scale_s (Rabs (x / y)) (Rabs mux) (Rabs muy) psx psy).
+Proof. exact estimate_scale_equiv. Qed.
+Print Assumptions C20_scale_estimate_kernel.
